@@ -83,15 +83,15 @@ theorem enter_blocks (c : Case) (r : RunSt) (hg : C03.Good r.st) (h0 : Rel0 r) :
 
 /-- entering `run()` with an acceptable command line -/
 theorem enter_sim (c : Case) (hc : 0 < c.chunk) (sizes : List Nat)
-    (hnf : forbidden (blacklist c) (lineOf c ++ [Tty.CR]) = false)
-    (hpok : promptOk (prompt c) (start (prompt c) c.steps).1 (start (prompt c) c.steps).2.status = true) :
+    (hnf : forbidden (blacklist c) (lineOf c ++ [Tty.CR]) = false) :
     ∃ o p, enter c sizes = (o, some p) ∧ o.res = .unit
       ∧ o.pieces.sum = (Tty.echo false (lineOf c ++ [Tty.CR])).length
-      ∧ Sim c p { rem := (start (prompt c) c.steps).2, pend := (start (prompt c) c.steps).1 } := by
+      ∧ (promptOk (prompt c) (start (prompt c) c.steps).1 (start (prompt c) c.steps).2.status = true →
+          Sim c p { rem := (start (prompt c) c.steps).2, pend := (start (prompt c) c.steps).1 }) := by
   unfold enter
   simp only [hnf, Bool.false_eq_true, if_false]
-  generalize hout : (start (prompt c) c.steps).1 = out0 at hpok ⊢
-  generalize hrem : (start (prompt c) c.steps).2 = rem at hpok ⊢
+  generalize hout : (start (prompt c) c.steps).1 = out0
+  generalize hrem : (start (prompt c) c.steps).2 = rem
   have hecho : (Tty.echo false (lineOf c ++ [Tty.CR])).length = Tty.readBackLen (lineOf c ++ [13]) :=
     Tty.echo_length_noctl _
   generalize hr1 : load sizes (Tty.echo false (lineOf c ++ [Tty.CR]) ++ out0) ({ st := machineSt c } : RunSt) = r1
@@ -120,6 +120,7 @@ theorem enter_sim (c : Case) (hc : 0 < c.chunk) (sizes : List Nat)
     rfl
   obtain ⟨hg3, hp3, hprm3, hbl3, hmon⟩ := enter_blocks c r2 hk.good hstep.1
   refine ⟨_, _, rfl, rfl, by rw [hsend.2.1, hecho], ?_⟩
+  intro hpok
   refine ⟨rfl, rfl, hg3, by rw [hp3, hp2], by rw [hbl3, hbl2, hbl1], by rw [hprm3, hprm2, hprm1],
     rfl, ?_, ?_, ?_⟩
   · intro _
